@@ -52,9 +52,9 @@ def expected(N, entry):
 def s1_jobs(tier, harness, quick_n5_max_edges=None):
     """The standard S1 job list.  harness(E, ctx, aux, desc)."""
 
-    def mk(name, N, entry=None, max_edges=None, skeleton=None, budget=900.0, required=True, exp=None):
+    def mk(name, N, entry=None, max_edges=None, skeleton=None, budget=900.0, required=True, exp=None, dag=False):
         def space():
-            return s1_space(N, entry=entry, max_edges=max_edges, skeleton=skeleton)
+            return s1_space(N, entry=entry, max_edges=max_edges, skeleton=skeleton, dag=dag)
 
         def h(E, ctx, aux):
             desc = realise_s1(E, aux)
@@ -66,7 +66,7 @@ def s1_jobs(tier, harness, quick_n5_max_edges=None):
             space=space,
             harness=h,
             bounds={"space": "S1 closed CFGs", "blocks": N, "entry": "any" if entry is None else f"b{entry}",
-                    "max_edges": max_edges, "skeleton": skeleton, "max_successors": 2},
+                    "max_edges": max_edges, "skeleton": skeleton, "max_successors": 2, "acyclic_forward_edges_only": dag},
             budget_s=budget,
             expect_paths=exp,
             required=required,
@@ -76,6 +76,9 @@ def s1_jobs(tier, harness, quick_n5_max_edges=None):
         mk("S1-N3-all-entries", 3, None, exp=expected(3, None)),
         mk("S1-N4-all-entries", 4, None, exp=expected(4, None)),
     ]
+    jobs.append(mk("F6dag-N6-entry-b0-forward-edges", 6, 0, dag=True, budget=900.0))
+    if tier != "quick":
+        jobs.append(mk("F7dag-N7-entry-b0-forward-edges", 7, 0, dag=True, budget=1200.0, required=False))
     if tier == "quick":
         if quick_n5_max_edges is None:
             jobs.append(mk("S1-N5-entry-b0", 5, 0, exp=expected(5, 0)))
@@ -128,6 +131,8 @@ def front_end_jobs(tier, harness):
     if tier == "quick":
         js.append(mk("source-derived-S2-ctl-c2-d2-t1", lambda ch: s2.CtlGen(ch, 2, 2, 1), 3, "source",
                      {"space": "graphs of AST2SCFG over S2-ctl", "compounds<=": 2, "depth<=": 2, "terminators<=": 1}))
+        js.append(mk("source-derived-S2-ctl-c3-core-kinds", lambda ch: s2.CtlGen(ch, 3, 2, 1, kinds=["if", "ifelse", "while"]), 3, "source",
+                     {"space": "graphs of AST2SCFG over S2-ctl", "compounds<=": 3, "kinds": ["if", "ifelse", "while"], "depth<=": 2, "terminators<=": 1}))
         js.append(mk("bytecode-derived-S2-ctl-c1", lambda ch: s2.CtlGen(ch, 1, 2, 2), 2, "bytecode",
                      {"space": "graphs of ByteFlow over compiled S2-ctl", "compounds<=": 1}))
     else:
